@@ -115,17 +115,17 @@ OkStep(st, e) ==
          V(TRUE, WithHd(st, [hd EXCEPT !.view = RSetLen(@, e.n), !.cur = RMin(@, e.n), !.fill = 0,
                                        !.clean = (e.n = Len_(st) /\ @)]), "set_len")
     [] e.op = "flush" ->
-         V(TRUE, [st EXCEPT !.files = (hd.name :> hd.view) @@ @, !.hd.clean = TRUE, !.unrec = @ \ {hd.name}], "flush")
+         V(TRUE, [st EXCEPT !.files = (hd.name :> hd.view) @@ @, !.hd.clean = TRUE], "flush")
     [] e.op = "cf_flush" -> V(TRUE, st, "cf_flush")
     [] e.op = "len" -> V(v = Len_(st), st, "len")
     [] e.op = "fresh_read" ->
          \* after an Ok flush every accepted byte is read back by a fresh handle AND is in the
          \* file image itself (e.disk = the stream as read from a reopened copy of the bytes).
-         \* While some injected failure has not been made good by a later Ok flush on the same
-         \* stream, the image as a whole may be beyond reopening (the failed call may have left
-         \* other structures half-updated - "later calls may fail"); the stored bytes are then
-         \* only judged when the copy can be opened and read.  Once every failed write-back has
-         \* been retried successfully the image must be readable again.
+         \* While some failed call has not been retried successfully (unrec, see Unfinished), the
+         \* image as a whole may be beyond reopening (the failed call may have left other
+         \* structures half-updated - "later calls may fail"); the stored bytes are then only
+         \* judged when the copy can be opened and read.  Once every failed call has been retried
+         \* successfully the image must be readable again.
          V((hd.clean /\ hd.name \notin st.taint) =>
               /\ RNorm(v) = st.files[hd.name]
               /\ (Has(e, "disk") =>
@@ -149,13 +149,31 @@ ResetStep(e) ==
   /\ skip' = (e.res.k # "ok")
   /\ (IF e.res.k = "ok" THEN TRUE ELSE Fail("SETUP", "setup", e))
 
+(* What a failed call leaves unfinished, and which later Ok call finishes it (C13's quantifier:  *)
+(* "followed by retry of the failed call"):                                                      *)
+(*   a failed write-back (inside flush / write / read / seek / fill_buf ...): the buffer stays   *)
+(*     dirty, any later Ok flush of the same stream writes it back          -> <<"wb", stream>>  *)
+(*   a failed set_len / create_stream / remove_stream: the same call with the same argument      *)
+(*     returning Ok                                            -> <<op, stream or name, arg>>    *)
+(*   anything else (write_all, a failure swallowed by a drop, open): never  -> <<"*">>           *)
+Unfinished(st, e) ==
+  IF e.op = "set_len" /\ st.hd.open THEN <<"set_len", st.hd.name, e.n>>
+  ELSE IF e.op \in {"create_stream", "remove_stream"} THEN <<e.op, e.name, 0>>
+  ELSE IF e.op \in {"write_all", "close"} THEN <<"*">>
+  ELSE IF NeedsHandle(e) /\ st.hd.open THEN <<"wb", st.hd.name>>
+  ELSE <<"*">>
+Finishes(st, e) ==
+  IF e.op = "flush" /\ st.hd.open THEN {<<"wb", st.hd.name>>}
+  ELSE IF e.op = "set_len" /\ st.hd.open THEN {<<"set_len", st.hd.name, e.n>>, <<"wb", st.hd.name>>}
+  ELSE IF e.op \in {"create_stream", "remove_stream"} THEN {<<e.op, e.name, 0>>}
+  ELSE {}
+
 (* after an error the cursor is whatever the implementation says next       *)
 AfterErr(st, e) ==
   [st EXCEPT !.faulted = @ \/ Fired(e),
-             \* unrec: streams whose handle saw an injected failure that no later Ok flush on the same
-             \* stream has made good ("*": a failure outside any handle).  While it is non-empty some
-             \* half-done update may still be in the image.
-             !.unrec = @ \cup {IF NeedsHandle(e) /\ st.hd.open THEN st.hd.name ELSE "*"},
+             \* unrec: failed calls not yet retried successfully.  While it is non-empty some half-done
+             \* update may still be in the image.
+             !.unrec = @ \cup {Unfinished(st, e)},
              \* io::Read: "if an error is returned then it must be guaranteed that no bytes were read":
              \* a failed read / fill_buf leaves the cursor where it was; other failed calls may have
              \* made partial progress (resolved by the next logged position)
@@ -210,8 +228,8 @@ OpStep(e) ==
           ELSE IF ~lenok
           THEN /\ Fail("C06", "len-not-current", e) /\ skip' = TRUE /\ UNCHANGED s
           ELSE /\ s' = [r.st EXCEPT !.faulted = @ \/ fired,
-                                  \* a failure swallowed by a drop leaves that stream's update unfinished
-                                  !.unrec = IF fired THEN @ \cup {IF s.hd.open THEN s.hd.name ELSE "*"} ELSE @]
+                                  \* a failure swallowed by a drop leaves that stream's update unfinished for good
+                                  !.unrec = IF fired THEN @ \cup {<<"*">>} ELSE @ \ Finishes(s, e)]
                /\ skip' = FALSE
 
 Step ==
